@@ -276,10 +276,18 @@ def deflation_case(ctx, cfg, rng):
     coeff = rng.choice([1, 0.4, 2.5, rng.uniform(0.1, 3)])
     circs, dump = [], []
     for _ in range(k):
-        gl = [Gate("RY", q, parameter=round(rng.uniform(0.2, 2.9), 4)) for q in range(nq)]
-        gl += [Gate("CNOT", (q + 1) % nq, q) for q in range(nq - 1) if rng.random() < 0.7]
-        gl += [Gate("RZ", q, parameter=round(rng.uniform(0.2, 2.9), 4)) for q in range(nq) if rng.random() < 0.5]
-        circs.append(Circuit(gl, n_qubits=nq))
+        # a deflation circuit may be narrower than the ansatz register (it then leaves the upper qubits in |0>): built
+        # without n_qubits on the first w qubits only, or with gaps (idle qubits in the middle)
+        shape = rng.random()
+        w = nq if shape < 0.55 or nq < 2 else rng.randint(1, nq - 1)
+        qs = list(range(w))
+        if shape > 0.85 and w >= 3:
+            qs = sorted(rng.sample(range(w), w - 1))
+        gl = [Gate("RY", q, parameter=round(rng.uniform(0.2, 2.9), 4)) for q in qs]
+        gl += [Gate("CNOT", qs[(i + 1) % len(qs)], qs[i]) for i in range(len(qs) - 1) if rng.random() < 0.7]
+        gl += [Gate("RZ", q, parameter=round(rng.uniform(0.2, 2.9), 4)) for q in qs if rng.random() < 0.5]
+        circs.append(Circuit(gl, n_qubits=nq) if w == nq and rng.random() < 0.7 else Circuit(gl))
+        ctx.count("deflation:narrow-circuit" if circs[-1].width < nq else "deflation:full-width-circuit")
         dump.append([[g.name, list(g.target), list(g.control) if g.control else None, g.parameter] for g in gl])
     try:
         solver, mol = build_solver(cfg, rng, {"deflation_circuits": circs, "deflation_coeff": coeff})
